@@ -177,10 +177,15 @@ def _wrap(col, kind, allow_gen=True):
     return list(col)
 
 
-def feed(classes, X, calls, K):
+SPELLINGS = ["list", "tuple", "ndarray", "generator"]      # what _wrap(col, kind) builds for kind 0..3
+
+
+def feed(classes, X, calls, K, spell=0):
     """Feed the rows of X (K-tuples) to one RunningStatistics per series, one RunningCovariance per
     pair i <= j and one RunningCovarianceMatrix(K): call 0 = update(sample), call L >= 1 =
-    update_from_it(next L samples) with list / tuple / ndarray / generator arguments in turn."""
+    update_from_it(next L samples).  Within one call ALL series are spelt the same way; call number ci uses
+    SPELLINGS[(ci + spell) % 4], so spell = 0/1/2/3 makes the FIRST call all-list / all-tuple / all-ndarray
+    (float64, or int64 for integer data) / all-generator (the matrix, which needs re-iterables, gets lists then)."""
     RS, RC, RCM = classes
     rs = [RS() for _ in range(K)]
     rc = {(i, j): RC() for i in range(K) for j in range(i, K)}
@@ -199,7 +204,7 @@ def feed(classes, X, calls, K):
             chunk = X[pos:pos + L]
             pos += L
             cols = [[row[i] for row in chunk] for i in range(K)]
-            kind = ci % 4
+            kind = (ci + spell) % 4
             for i in range(K):
                 rs[i].update_from_it(_wrap(cols[i], kind))
             for (i, j), acc in rc.items():
@@ -304,17 +309,20 @@ def compare(acc, ex, worst, where):
     return bad
 
 
-def four_ways(classes, X, calls, perm, ex, worst, tag):
-    """one at a time / as the model cut it into calls / permuted / permuted and cut the same way"""
+def four_ways(classes, X, calls, perm, ex, worst, tag, spells=(0, 2)):
+    """one at a time / as the model cut it into calls / permuted / permuted and cut the same way; the two cut
+    feeds use the spelling rotations `spells` (see feed): by default list-first and ndarray-first"""
     K = ex.K
     n = len(X)
     Xp = [X[p - 1] for p in perm]
     bad = []
-    for name, rows, cl in (("single", X, [0] * n), ("calls", X, calls),
-                           ("permuted", Xp, [0] * n), ("permuted+calls", Xp, calls)):
+    for name, rows, cl, sp in (("single", X, [0] * n, 0), ("calls", X, calls, spells[0]),
+                               ("permuted", Xp, [0] * n, 0), ("permuted+calls", Xp, calls, spells[1])):
         where = "%s/%s" % (tag, name)
+        if cl is calls:
+            where += "(%s first)" % SPELLINGS[sp]
         try:
-            acc = feed(classes, rows, cl, K)
+            acc = feed(classes, rows, cl, K, sp)
             bad += compare(acc, ex, worst, where)
         except Exception as e:  # noqa  the real code raised where a result is demanded
             bad.append(dict(where=where, cls="*", quantity="raised", index=None,
@@ -364,7 +372,9 @@ def check_stats_case(c, classes=None, mapsets=None):
     worst, bad = {}, []
     for ms in (mapsets or mapsets_for(c)):
         X, ex = map_case(c, ms)
-        bad += four_ways(classes, X, c["calls"], c["perm"], ex, worst, ms)
+        # first call spelt all-list / all-tuple / all-generator in turn for the cut feed, all-ndarray for the permuted cut feed
+        rot = (0, 1, 3)[(c["n"] + len(c["calls"]) + sum(c["calls"]) + len(ms)) % 3]
+        bad += four_ways(classes, X, c["calls"], c["perm"], ex, worst, ms, spells=(rot, 2))
     return bad, worst
 
 
@@ -780,7 +790,10 @@ def check_cov_case(c):
     _, RC, RCM = real_classes()
     K = c["k"]
     bad, ncmp, steps, worst = [], 0, 0, 0.0
-    for name, off, sc, typ in COV_MAPS:
+    for mi, (mname, off, sc, typ) in enumerate(COV_MAPS):
+      # every map twice: first call all-ndarray (float64; int64 under k:int), and all-list / all-tuple / all-generator in turn
+      for spell in (2, (0, 1, 3)[(mi + c["n"] + len(c["calls"]) + sum(c["calls"])) % 3]):
+        name = "%s/%s first" % (mname, SPELLINGS[spell])
         X = [tuple(typ(off + sc * k) for k in row) for row in c["xs"]]
         A = [max(abs(float(r[i])) for r in X) for i in range(K)]
         D = [max(float(r[i]) for r in X) - min(float(r[i]) for r in X) for i in range(K)]
@@ -823,8 +836,8 @@ def check_cov_case(c):
                     pos += L
                     cols = [[r[i] for r in chunk] for i in range(K)]
                     for (i, j), a in rc.items():
-                        a.update_from_it(_wrap(cols[i], t % 4), _wrap(cols[j], t % 4))
-                    rcm.update_from_it(*[_wrap(col, t % 4, allow_gen=False) for col in cols])
+                        a.update_from_it(_wrap(cols[i], (t + spell) % 4), _wrap(cols[j], (t + spell) % 4))
+                    rcm.update_from_it(*[_wrap(col, (t + spell) % 4, allow_gen=False) for col in cols])
                 steps += 1
                 snap = c["trace"][t]
                 n = snap[0][0]["n"]
@@ -834,7 +847,7 @@ def check_cov_case(c):
                 for i in range(K):
                     for j in range(K):
                         e = snap[i][j]
-                        tolc = COV_CC * n * EPS * (A[i] * D[j] + A[j] * D[i]) / 2 + 1e-300
+                        tolc = COV_CC * n * EPS * (A[i] * D[j] + A[j] * D[i]) / 2 + (n * EPS) ** 2 * A[i] * A[j] + 1e-300
                         want = sc * sc * _rat(e["covar"])
                         cmp("RunningCovarianceMatrix", "covar_matrix", [i, j], m[i, j], want, tolc)
                         if sm is not None:
@@ -896,6 +909,16 @@ def covariance_machine(rep, ext_jobs, ext_results):
     out["emitted_behaviours"] = len(cases)
     if not cases:
         raise tlc.TLCError("SpecCov emitted no behaviour")
+    # every behaviour is replayed, under every map, with its first call spelt all-ndarray (float64, and int64 under k:int)
+    # and with one of all-list / all-tuple / all-generator; what matters most: a chunked FIRST call followed by further calls
+    first_chunk = [c for c in cases if c["calls"][0] >= 1 and len(c["calls"]) >= 2]
+    out["first_call_spellings"] = dict(
+        behaviours_with_chunked_first_call_then_more_calls=len(first_chunk),
+        of_which_first_chunk_has_2_or_more_samples=sum(1 for c in first_chunk if c["calls"][0] >= 2),
+        replayed_as=["all ndarray float64 (maps k, 5+k/128)", "all ndarray int64 (map k:int)",
+                     "all list / all tuple / all generator in turn"])
+    if out["first_call_spellings"]["of_which_first_chunk_has_2_or_more_samples"] < 100:
+        raise tlc.TLCError("vacuous: too few behaviours start with a chunked call followed by further calls")
     # binding self-test: a corrupted snapshot must be noticed (judged below, only if the code conforms)
     d = copy.deepcopy([c for c in cases if c["k"] == 2 and c["n"] >= 3][0])
     d["trace"][-1][0][1]["c"][0] += 1
@@ -974,6 +997,9 @@ def run(rep):
         "are skipped",
         "the exact stopping count of the pinned code (first check at 0-based index > min_samples) is modelled but only "
         "noted as model drift when the real code differs while still satisfying the property",
+        "within one update_from_it call all series are spelt the same way (all list / all tuple / all ndarray float64 or int64 "
+        "/ all generator), rotating over the calls; every cut feed is run with the first call all-ndarray and with one of "
+        "the other spellings first",
         "RunningCovarianceMatrix.update_from_it is fed re-iterable arguments (list/tuple/ndarray); one-shot iterators are "
         "only used for RunningStatistics and RunningCovariance",
     ]
@@ -1177,7 +1203,7 @@ def run(rep):
             rep.add_violation(dict(meta, failing=b), _what(b), key=_key(b, "sweep"))
     if nbig < 100:
         raise RuntimeError("vacuous: only %d update_from_it(ndarray of >= 32 values) calls into non-empty accumulators" % nbig)
-    rep.extra["ndarray_chunks_ge32_into_nonempty_accumulators"] = nbig * 4   # x 2 orders x (RunningStatistics..Matrix), at least
+    rep.extra["ndarray_chunks_ge32_into_nonempty_accumulators"] = nbig * 2   # x (RunningStatistics, ..Matrix) at least; cut feed in the given order
     nnoisy = 20000 if thorough else 1500
     for meta, bad, drift, worst in common.pmap(check_noisy_case, [(seed, i) for i in range(nnoisy)]):
         _merge_worst(worst_stop, worst)
